@@ -35,12 +35,15 @@ func (i *IRCServer) cmdServerSvsnick(s *Session, reply *Replyctx, msg *irc.Messa
 	oldNick := NickToLower(msg.Params[0])
 	session.Nick = msg.Params[1]
 	i.nicks[NickToLower(session.Nick)] = session
-	delete(i.nicks, oldNick)
-	for _, c := range i.channels {
-		if modes, ok := c.nicks[oldNick]; ok {
-			c.nicks[NickToLower(session.Nick)] = modes
+	// When only the capitalization changes, the keys stay the same.
+	if oldNick != NickToLower(session.Nick) {
+		delete(i.nicks, oldNick)
+		for _, c := range i.channels {
+			if modes, ok := c.nicks[oldNick]; ok {
+				c.nicks[NickToLower(session.Nick)] = modes
+			}
+			delete(c.nicks, oldNick)
 		}
-		delete(c.nicks, oldNick)
 	}
 	session.updateIrcPrefix()
 	i.sendServices(reply,
